@@ -27,6 +27,10 @@ type ReaderPlan struct {
 	FaultAt      int  `json:"fault_at,omitempty"`
 	FaultSticky  bool `json:"fault_sticky,omitempty"`
 	FaultPartial bool `json:"fault_partial,omitempty"`
+	// EOFPauses: ascending logical offsets at which ONE Read returns (0, io.EOF) although more
+	// bytes follow (a source that is still growing: a file being recorded, a tailed stream);
+	// the next Read carries on. No read crosses a pause that has not been delivered yet.
+	EOFPauses []int `json:"eof_pauses,omitempty"`
 }
 
 // SimReader is the io.Reader handed to the Demuxer.
@@ -41,6 +45,8 @@ type SimReader struct {
 	faulted bool // one-shot fault already delivered
 	FaultN  int  // times the fault was delivered
 	EOFHits int  // reads that returned (0, io.EOF)
+	pi      int  // EOF pauses already delivered
+	PauseN  int  // times a pause was delivered
 	log     *core.Log
 }
 
@@ -89,6 +95,15 @@ func (s *SimReader) Read(p []byte) (int, error) {
 		s.log.Add("reader", "fault", s.pos)
 		return 0, ErrInjected
 	}
+	for s.pi < len(s.plan.EOFPauses) && s.plan.EOFPauses[s.pi] < s.pos {
+		s.pi++ // jumped over by a seek
+	}
+	if s.pi < len(s.plan.EOFPauses) && s.pos == s.plan.EOFPauses[s.pi] {
+		s.pi++
+		s.PauseN++
+		s.log.Add("reader", "eof-pause", s.pos)
+		return 0, io.EOF
+	}
 	if s.pos >= len(s.data) {
 		s.log.Add("reader", "eof", s.pos)
 		s.EOFHits++
@@ -107,6 +122,9 @@ func (s *SimReader) Read(p []byte) (int, error) {
 	}
 	if n > len(s.data)-s.pos {
 		n = len(s.data) - s.pos
+	}
+	if s.pi < len(s.plan.EOFPauses) && s.pos < s.plan.EOFPauses[s.pi] && s.pos+n > s.plan.EOFPauses[s.pi] {
+		n = s.plan.EOFPauses[s.pi] - s.pos
 	}
 	var err error
 	if s.plan.HasFault && s.pos < s.plan.FaultAt && s.pos+n > s.plan.FaultAt && (s.plan.FaultSticky || !s.faulted) {
